@@ -21,12 +21,13 @@ class K:
 
 class T:
     """A symbolic term: operator + hashable arguments."""
-    __slots__ = ('op', 'args', '_h')
+    __slots__ = ('op', 'args', '_h', '_s')
 
     def __init__(self, op, *args):
         self.op = op
         self.args = args
         self._h = hash(('T', op, args))
+        self._s = None
 
     def __eq__(self, other):
         if self is other:
@@ -286,6 +287,18 @@ def show(v, depth=0):
     if isinstance(v, K):
         return repr(v.v)
     if isinstance(v, T):
+        if v._s is not None:
+            return v._s
+        r = _show_term(v, depth)
+        if depth <= 2:
+            v._s = r
+        return r
+    return _show_other(v, depth)
+
+
+def _show_term(v, depth):
+    d = depth + 1
+    if True:
         op, a = v.op, v.args
         if op in ('cmp', 'binop') and len(a) == 3:
             return '(%s %s %s)' % (show(a[1], d), a[0], show(a[2], d))
@@ -305,6 +318,10 @@ def show(v, depth=0):
                 show(a[0], d), show(a[1], d), a[2], a[3],
                 ',signed' if a[4] else '')
         return '%s(%s)' % (op, ', '.join(show(x, d) for x in a))
+
+
+def _show_other(v, depth):
+    d = depth + 1
     if isinstance(v, TupleV):
         return '(%s)' % ', '.join(show(x, d) for x in v.items)
     if isinstance(v, ListV):
